@@ -19,7 +19,7 @@ import (
 func init() {
 	register(&Prop{
 		ID: "C15", Level: "fault_enumeration",
-		Rule: "one case = a router with CustomRecoveryWithLogHandler(capturing handler, DefaultHandleRecovery) over all handler kinds, generated routes, request headers carrying unique secret tokens under credential-bearing names in canonical, lower-case and mixed capitalisation (drawn) next to ordinary headers, and a generated Updates/View program; for that configuration ALL combinations are enumerated of panic value (string, error, wrapped error, nil, custom type, http.ErrAbortHandler bare and wrapped, net.OpError with broken pipe / connection reset / other errno, directly or one wrapping layer down) x response progress at the time of the panic (nothing, header only, partial body, after a failed write) x panic site (route handler, route-specific middleware, no-route, no-method and options handlers), and a panic after every prefix of the Updates/View program run inside a handler. Oracle: ServeHTTP returns normally (ErrAbortHandler re-raised as the identical value); the simulated connection shows 500 iff nothing had been written and the value is not a broken-connection error, nothing at all for broken connections, an untouched partial response otherwise; exactly one diagnostic record naming route (or scope), parameters and request line and containing none of the secret values; afterwards the routes are unchanged, a follow-up request is served and a write issued under the scheduler completes (writer lock released, else deadlock). Non-trivial: every run (all combinations are executed); distinct = hash of (configuration, header capitalisation, program).",
+		Rule: "one case = a router with CustomRecoveryWithLogHandler(capturing handler, DefaultHandleRecovery) over all handler kinds, generated routes, request headers carrying unique secret tokens under credential-bearing names in canonical, lower-case and mixed capitalisation (drawn) next to ordinary headers, and a generated Updates/View program; for that configuration ALL combinations are enumerated of panic value (string, error, wrapped error, nil, custom type, http.ErrAbortHandler bare and wrapped, net.OpError with broken pipe / connection reset / other errno, directly or one wrapping layer down) x response progress at the time of the panic (nothing, header only, partial body, after a failed write) x panic site (route handler, route-specific middleware, no-route, no-method and options handlers), a panic after every prefix of the Updates/View program run inside a handler, and a panic raised by a middleware constructor while Router.Handle/Update build a route inside a handler (user code running under the writer lock). Oracle: ServeHTTP returns normally (ErrAbortHandler re-raised as the identical value); the simulated connection shows 500 iff nothing had been written and the value is not a broken-connection error, nothing at all for broken connections, an untouched partial response otherwise; exactly one diagnostic record naming route (or scope), parameters and request line and containing none of the secret values; afterwards the routes are unchanged, a follow-up request is served and a write issued under the scheduler completes (writer lock released, else deadlock). Non-trivial: every run (all combinations are executed); distinct = hash of (configuration, header capitalisation, program).",
 		Run:  runC15, Quick: 4000, Thorough: 480000,
 		Real: []string{"Recovery middleware (recovery.go)", "Router.Updates/View abort paths", "recorder ResponseWriter", "ServeHTTP dispatch"},
 		Stub: []string{"slog sink: capturing handler", "net/http connection: simulated connection", "handlers and middleware that panic on script"},
@@ -331,6 +331,33 @@ func runC15(src sim.Source, o Opts) *Result {
 		}
 	}
 
+	// the writer lock is released: a write issued under the scheduler completes (otherwise: deadlock)
+	lockReleased := func(where string) bool {
+		s := sim.NewSched(src)
+		var werr error
+		s.Go("writer", func(*sim.Task) {
+			if _, werr = w.R.Handle("GET", "/zz/probe", world.Handler(0)); werr == nil {
+				_, werr = w.R.Delete("GET", "/zz/probe")
+			}
+		})
+		out := s.Run()
+		res.Steps += s.Steps
+		if out.Kind == sim.Deadlock {
+			res.fail("C15/lock-not-released", "%s: a later write waits forever for the writer lock", where)
+			return false
+		}
+		if out.Kind != sim.Done {
+			res.Leaked = s.Leaked()
+			res.fail("C15/lock-not-released", "%s: a later write ended with %s %s", where, out.Kind, out.State)
+			return false
+		}
+		if werr != nil {
+			res.fail("C15/follow-up", "%s: a later write failed: %v", where, werr)
+			return false
+		}
+		return true
+	}
+
 	// panics after every prefix of an Updates / View program executed inside a handler
 	nextTag := 1000
 	prog := genTxnProg(src, pool, []string{"GET", "POST"}, &nextTag, 4, 0)
@@ -381,29 +408,49 @@ func runC15(src sim.Source, o Opts) *Result {
 			if !followUp(where) {
 				return res
 			}
-			// the writer lock is released: a write issued under the scheduler completes (otherwise: deadlock)
-			s := sim.NewSched(src)
-			var werr error
-			s.Go("writer", func(*sim.Task) {
-				if _, werr = w.R.Handle("GET", "/zz/probe", world.Handler(0)); werr == nil {
-					_, werr = w.R.Delete("GET", "/zz/probe")
-				}
-			})
-			out := s.Run()
-			res.Steps += s.Steps
-			if out.Kind == sim.Deadlock {
-				res.fail("C15/lock-not-released", "%s: a later write waits forever for the writer lock", where)
+			if !lockReleased(where) {
 				return res
 			}
-			if out.Kind != sim.Done {
-				res.Leaked = s.Leaked()
-				res.fail("C15/lock-not-released", "%s: a later write ended with %s %s", where, out.Kind, out.State)
-				return res
+		}
+	}
+
+	// a panic raised while a single-operation write helper builds the route (a middleware constructor of the new
+	// route panics, i.e. user code running under the writer lock), called from a handler
+	for _, helper := range []string{"handle", "update", "handle-global-mw-order"} {
+		if res.failed() {
+			return res
+		}
+		res.Checks++
+		res.inc("write_helper_panic_sites")
+		capt.Records = nil
+		badMW := fox.WithMiddleware(func(next fox.HandlerFunc) fox.HandlerFunc { panic("injected in a middleware constructor") })
+		log := &world.ReqLog{Inner: func(c fox.Context, h *world.Hit) {
+			switch helper {
+			case "handle":
+				_, _ = c.Fox().Handle("GET", "/zz/new/{a}", world.Handler(0), badMW)
+			case "update":
+				_, _ = c.Fox().Update("GET", wantMatch.Route.Pattern, world.Handler(0), badMW)
+			default:
+				_, _ = c.Fox().Handle("POST", wantMatch.Route.Pattern, world.Handler(0), fox.WithMiddleware(world.RouteMW(7)), badMW)
 			}
-			if werr != nil {
-				res.fail("C15/follow-up", "%s: a later write failed: %v", where, werr)
-				return res
-			}
+		}}
+		conn := world.NewConn()
+		var escaped any
+		func() {
+			defer func() { escaped = recover() }()
+			w.R.ServeHTTP(conn, mkReq("GET", path, log))
+		}()
+		where := fmt.Sprintf("panic in a middleware constructor during Router.%s inside a handler", helper)
+		if escaped != nil {
+			res.fail("C15/panic-escaped", "%s: escaped ServeHTTP: %v", where, escaped)
+			return res
+		}
+		if conn.Explicit != 500 {
+			res.fail("C15/no-500", "%s: the client did not get a 500 (connection saw %v)", where, conn.Events)
+			return res
+		}
+		if !followUp(where) || !lockReleased(where) {
+			return res
 		}
 	}
 	res.Nontrivial = true
